@@ -65,6 +65,7 @@ def run(rep):
     rep.guard(c06.s4, rep, w)          # an upvalue left open past the end of its scope is a raw pointer into a dead stack slot: the open list stays ordered the way close_upvalues walks it
     import c09
     rep.guard(c09.f12, rep, w, 'C02')  # a fiber taken over for another run carries nothing of the earlier one: a left-over handler sends the next error into another script's bytecode (foreign constant table: host panic)
+    rep.guard(c09.f13, rep, w)         # a refused Fiber.call that has already marked the fiber as entered: the retry is judged as a resume, the body runs with its locals displaced by one slot and reads above the stack top
 
 
 def const_usize(o):
